@@ -436,9 +436,9 @@ fn drive_sched<S: TreeSink>(sink: S, ts: &TreeSched, chunks_: &[String], inject:
 
 pub fn check_tree(ts: &TreeSched, st: &mut Stats) -> Result<(), String> {
     st.eval();
-    let (dom, fed, pauses) = drive_sched(ModelDom::new(), ts, &ts.tree.chunks, &ts.inject);
+    let (dom, fed, pauses) = drive_sched(ModelDom::for_cfg(&ts.tree.cfg), ts, &ts.tree.chunks, &ts.inject);
     let one = TreeSched { tree: ts.tree.clone(), inject: vec![] };
-    let (dom1, _, _) = drive_sched(ModelDom::new(), &one, &[fed.clone()], &[]);
+    let (dom1, _, _) = drive_sched(ModelDom::for_cfg(&ts.tree.cfg), &one, &[fed.clone()], &[]);
     let (a, b) = (model_canon(&dom, DOC, CanonOpts::default()), model_canon(&dom1, DOC, CanonOpts::default()));
     if a != b {
         return Err(format!(
@@ -455,7 +455,7 @@ pub fn check_tree(ts: &TreeSched, st: &mut Stats) -> Result<(), String> {
     // the crate's own driver (Parser as a TendrilSink: process() per chunk, then finish())
     if ts.inject.is_empty() {
         use tendril::TendrilSink;
-        let mut p = crate::sinks::drive::make_parser(ModelDom::new(), &ts.tree.cfg);
+        let mut p = crate::sinks::drive::make_parser(ModelDom::for_cfg(&ts.tree.cfg), &ts.tree.cfg);
         for c in &ts.tree.chunks {
             p.process(tendril::StrTendril::from(c.as_str()));
         }
@@ -472,7 +472,7 @@ pub fn check_tree(ts: &TreeSched, st: &mut Stats) -> Result<(), String> {
     }
     // every chunk queued first, then one feed loop (look-ahead keywords may span many buffers)
     if ts.inject.is_empty() {
-        let p = crate::sinks::drive::make_parser(ModelDom::new(), &ts.tree.cfg);
+        let p = crate::sinks::drive::make_parser(ModelDom::for_cfg(&ts.tree.cfg), &ts.tree.cfg);
         for c in &ts.tree.chunks {
             p.input_buffer.push_back(tendril::StrTendril::from(c.as_str()));
         }
